@@ -74,7 +74,9 @@ def render(seq, stack, ctx, flow, path, nw=1, nested=False):
             before = ctx.last
             n0 = ctx.n
             inner = render(kids, st, ctx, flow, path + ((c, i),), ctx.inw if not kids else nw, nested=True)
-            if ctx.tail and ctx.tail not in ('NOWORD', 'ADJ'):
+            if ctx.tail == 'LEADWS':
+                inner = '\n    ' + inner
+            if ctx.tail and ctx.tail not in ('NOWORD', 'ADJ', 'LEADWS'):
                 inner += ' ' + ctx.tail
             if c == 'F':
                 out.append('\\foreignlanguage{%s}{%s}' % (l, inner))
@@ -137,7 +139,7 @@ PREAMBLES = {
     'cls-en-pkg-de': ('\\documentclass[english]{article}\n\\usepackage[ngerman]{babel}\n', 'ru-RU', 'de-DE'),
     'cls-ru-pkg-none': ('\\documentclass[russian,a4paper]{scrartcl}\n\\usepackage[T1]{fontenc}\\usepackage{babel}\n', 'en-GB', 'ru-RU'),
 }
-TAILS = [None, '\\LaTeX', '\\xxx', 'NOWORD', 'ADJ']
+TAILS = [None, '\\LaTeX', '\\xxx', 'NOWORD', 'ADJ', 'LEADWS']
 
 
 class C12:
@@ -193,6 +195,10 @@ class C12:
         for lang in ml:
             for pi, (plain, nums) in enumerate(ml[lang]):
                 nums = list(nums)
+                if len(nums) != len(plain) or any(not 1 <= q <= len(src) for q in nums):
+                    viol.append({'clause': 'every part has a position list of the same length, inside the source',
+                                 'sig': 'C12:map-length', 'detail': dict(det, part=plain, map=nums)})
+                    continue
                 for m in WORD.finditer(plain):
                     found.setdefault(m.group(0), []).append((lang, pi))
                     off = src.index(m.group(0))
